@@ -115,6 +115,9 @@ pub fn run(rep: &mut Report) {
         c.alph.peer_pub_q = vec![1, 2];
         c.alph.peer_ids = vec![1, 2];
         c.alph.peer_acks.push(AckKind::Pubrel);
+        // (the message-expiry hook on every kind of store entry: a call that must stay a no-op for an exchange
+        // past PUBREC must not set up a later panic either)
+        c.alph.erase = true;
         c.connects = vec![ConnProf::basic(false), ConnProf { rm: Some(1), tam: Some(1), ..ConnProf::basic(false) }, ConnProf { rm: Some(2), mps: Some(9), ..ConnProf::basic(false) }];
         c.connacks = vec![AckProf::basic(true), AckProf { rm: Some(1), tam: Some(1), ..AckProf::basic(true) }, AckProf { rm: Some(2), mps: Some(9), ..AckProf::basic(true) }];
         c.groups = vec!["c05"];
